@@ -78,6 +78,11 @@ def check_apply(ctx, fi, it, case, out, node, sos, sig_in, noise_in, real_part):
             continue
         cur = v
         a = cur.single_atom() if isinstance(cur, Form) else None
+        # a cast of the filtered samples to a floating type holds every value; a cast to anything else (the input's own dtype, an
+        # integer type) truncates them and is reported below as an extra nonlinearity
+        while a and a[0] == "fn" and a[1] == "astype" and len(a[2]) >= 2 and any(k in repr(a[2][1]) for k in ("class 'float'", "class float", "float64", "complex128", "class 'complex'", "class complex", "longdouble")):
+            cur = a[2][0]
+            a = cur.single_atom() if isinstance(cur, Form) else None
         had_real = False
         if a and a[0] == "fn" and a[1] == "real":
             had_real = True
@@ -123,6 +128,7 @@ def run(ctx):
             if fsmode == "given":
                 ass["fs"] = ("truth", True)
             it = Interp(pkg, assumptions=ass, param_classes={"input": "electrical_signal"})
+            it.keep_astype = True          # a cast of the filtered samples (back to an integer input dtype, say) is not the identity
             outs = it.run(fi)
             rets = [o for o in outs if o.kind == "return"]
             if len(rets) != 1 or not isinstance(rets[0].value, ObjV):
@@ -189,6 +195,7 @@ def run(ctx):
     for noise in ("none", "notnone"):
         case = f"noise={noise}"
         it = Interp(pkg, assumptions={"input.noise": noise}, param_classes={"input": "optical_signal"})
+        it.keep_astype = True
         outs = it.run(fb)
         rets = [o for o in outs if o.kind == "return"]
         if len(rets) != 1 or not isinstance(rets[0].value, ObjV):
